@@ -218,7 +218,18 @@ def run(ctx):
                 check_dual(ctx, name, l, reqs, meta)
         except LatticeException:
             pass
-    for name, l in lat + small:
+    # periodic lattices with coordination > 3 whose corners wrap round the cell: duals, off-centre square and triangular tilings
+    high = []
+    one = np.array([[0, 0]])
+    for off in ((0.9, 0.9), (0.05, 0.5), (0.5, 0.97)):
+        high.append((f"square4x4@{off}", eg.tile_unit_cell(np.array([off]), np.array([[0, 0], [0, 0]]), np.array([[1, 0], [0, 1]]), [4, 4])))
+        high.append((f"triangular4x3@{off}", eg.tile_unit_cell(np.array([off]), np.array([[0, 0], [0, 0], [0, 0]]), np.array([[1, 0], [0, 1], [1, 1]]), [4, 3])))
+    for N in ([16, 24] if quick else [14, 16, 20, 24, 30, 40]):
+        try:
+            high.append((f"dual-vor{N}", gu.make_dual(zoo.voronoi(rng, N))))
+        except Exception:
+            pass
+    for name, l in lat + small + high:
         l = zoo.rebuild(l)
         if zoo.has_self_loop(l):
             continue
